@@ -8,10 +8,11 @@
    exactly  key sep value  of one entity block - not its attached comment, not
    its final newline); the reference texts appended are the [Entity.all] texts
    of legal entity blocks.  Then the staged text is again the text of a legal
-   block list, [merged_blocks]. *)
+   block list, [merged_blocks].  The format-independent part (the splice on
+   blocks, the sort, the run of merge) is Proofs/MergeReparseShared.v. *)
 From Coq Require Import NArith List Bool Arith Lia Permutation Sorted.
 From CL Require Import Base.Sx Base.Res Base.Str Model.Merge Generated.C04Facts
-  Model.Entry Model.Parse Model.ParseFormats Proofs.MergeProofs
+  Model.Entry Model.Parse Model.ParseFormats Proofs.MergeProofs Proofs.MergeReparseShared
   Proofs.MergeRefuted Proofs.C02Roundtrip Proofs.C02BlocksRx Proofs.C02BlocksVal Proofs.C02Blocks.
 Import ListNotations.
 Local Open Scope nat_scope.
@@ -24,46 +25,36 @@ Local Arguments ctext : simpl never.
 
 Local Notation skip := (@Merge.skip str).
 
-(* ---- the entities of a parse, and the skips made of them ------------------- *)
-Definition parse_entities (s : str) (es : list entry) : list (str * span) :=
-  map (fun e => (opt_text s (e_key e), e_span e)) (filter (is_kind KEntity) es).
-
-(* what compare() puts into skips for a localized entity: the entity's span and key *)
-Definition skip_of (p : str * span) : skip :=
-  mkskip (Some (fst (snd p)), Some (snd (snd p))) (fst p) false.
-
-Definition parse_skips (sel : str -> bool) (s : str) (es : list entry) : list skip :=
-  map skip_of (filter (fun p => sel (fst p)) (parse_entities s es)).
-
-(* ---- the same, computed from the blocks ------------------------------------ *)
-Definition block_entity (off : nat) (b : block) : list (str * span) :=
+(* ---- an entity block: attached comment | key sep value | final newline ------------- *)
+Definition p_dec (b : block) : option (str * str * str * str) :=
   match b with
-  | BEntity cs key b1 sc b2 conts lastl _ =>
-      let k := off + length (ctext cs) in
-      [(key, (k, k + length key + length b1 + 1 + length b2 + length (vraw conts lastl)))]
-  | _ => []
+  | BEntity cs key b1 sc b2 conts lastl nl =>
+      Some (ctext cs, key, key ++ b1 ++ sc :: b2 ++ vraw conts lastl, eol nl)
+  | _ => None
   end.
 
-Fixpoint block_entities (off : nat) (bs : list block) : list (str * span) :=
-  match bs with
-  | [] => []
-  | b :: rest => block_entity off b ++ block_entities (off + length (text b)) rest
-  end.
+Lemma p_dec_text : forall b p k c q, p_dec b = Some (p, k, c, q) -> text b = p ++ c ++ q.
+Proof.
+  intros b p k c q H. destruct b; try discriminate. inversion H; subst. cbn [text]. norm_app. reflexivity.
+Qed.
+
+Lemma p_dec_core : forall b p k c q, p_dec b = Some (p, k, c, q) -> c <> [].
+Proof.
+  intros b p k c q H. destruct b; try discriminate. inversion H; subst.
+  intro E. apply (f_equal (@length N)) in E. rewrite !app_length in E. simpl in E. lia.
+Qed.
 
 Definition rkey (r : record) : str := fst (fst r).
 
-Lemma map_pair_eq : forall {X Y} (l1 l2 : list (X * Y)),
-  map fst l1 = map fst l2 -> map snd l1 = map snd l2 -> l1 = l2.
-Proof.
-  induction l1 as [|[x y] l1 IH]; intros [|[x' y'] l2] H1 H2; try discriminate; [reflexivity|].
-  simpl in H1, H2. inversion H1. inversion H2. subst. f_equal. now apply IH.
-Qed.
+Notation block_entities := (g_entities text p_dec).
 
-Lemma block_entities_keys : forall bs off,
-  map fst (block_entities off bs) = map rkey (records_of bs).
+Lemma ftext_file_text : forall bs, ftext text bs = file_text bs.
+Proof. reflexivity. Qed.
+
+Lemma keys_of_records : forall bs, keys_of p_dec bs = map rkey (records_of bs).
 Proof.
-  induction bs as [|b rest IH]; intro off; [reflexivity|].
-  cbn [block_entities]. rewrite map_app, IH. destruct b; reflexivity.
+  induction bs as [|b rest IH]; [reflexivity|]. cbn [keys_of flat_map].
+  fold (keys_of p_dec rest). rewrite IH. destruct b; reflexivity.
 Qed.
 
 Lemma text_entity_length : forall cs key b1 sc b2 conts lastl nl,
@@ -72,6 +63,7 @@ Lemma text_entity_length : forall cs key b1 sc b2 conts lastl nl,
   length (eol nl).
 Proof. intros. cbn [text]. rewrite !app_length. simpl. rewrite !app_length. lia. Qed.
 
+(* the entity spans of the parse are the spans of the blocks *)
 Lemma ents_spans : forall bs, Forall legal_block bs -> forall off w,
   map e_span (filter (is_kind KEntity) (ents off w bs)) = map snd (block_entities (off + w) bs).
 Proof.
@@ -79,29 +71,29 @@ Proof.
   - simpl ents. now rewrite flush_no by discriminate.
   - inversion Hleg as [|b' rest' Hb Hrest]; subst b' rest'. specialize (IH Hrest).
     destruct b as [x|cs|cs key b1 sc b2 conts lastl nl].
-    + simpl ents. rewrite IH. cbn [block_entities block_entity text app].
+    + simpl ents. rewrite IH. cbn [g_entities g_entity p_dec text app].
       now replace (off + (w + length x)) with (off + w + length x) by lia.
     + unfold legal_block in Hb. cbn [legal_blockb] in Hb. apply andb_true_iff in Hb.
       destruct Hb as [Hc1 _].
       assert (Hne : cs <> []) by (destruct cs; [discriminate|discriminate]).
       simpl ents. rewrite filter_app, flush_no by discriminate.
       cbn [app filter is_kind mk_comment e_kind]. rewrite IH.
-      cbn [block_entities block_entity text app].
+      cbn [g_entities g_entity p_dec text app].
       replace (off + w + length (cbody cs) + 1) with (off + w + length (ctext cs));
         [reflexivity|]. rewrite (ctext_body cs Hne), app_length. simpl. lia.
     + simpl ents. rewrite filter_app, flush_no by discriminate.
       cbn [app filter is_kind e_kind map e_span]. rewrite IH.
-      cbn [block_entities block_entity app map snd]. rewrite text_entity_length.
+      cbn [g_entities]. unfold g_entity at 1. cbn [p_dec app map snd]. rewrite text_entity_length.
       match goal with |- ?p :: map snd (block_entities ?o1 rest) = ?q :: map snd (block_entities ?o2 rest) =>
         replace o1 with o2 by lia; replace p with q; [reflexivity|] end.
-      f_equal; lia.
+      rewrite !app_length. simpl. rewrite !app_length. f_equal; lia.
 Qed.
 
 Lemma parse_entities_blocks : forall bs, Forall legal_block bs ->
   parse_entities (file_text bs) (entries_of bs) = block_entities 0 bs.
 Proof.
   intros bs Hleg. apply map_pair_eq.
-  - rewrite block_entities_keys. unfold parse_entities. rewrite map_map. cbn [fst].
+  - rewrite (g_entities_keys text p_dec), keys_of_records. unfold parse_entities. rewrite map_map. cbn [fst].
     destruct (ents_views bs Hleg [] []) as [H _]. cbn [app length] in H.
     unfold entries_of. rewrite <- H. rewrite map_map. reflexivity.
   - unfold parse_entities. rewrite map_map. cbn [snd]. unfold entries_of.
@@ -122,190 +114,18 @@ Definition kept_of (sel : str -> bool) (b : block) : list block :=
   end.
 Definition kept (sel : str -> bool) (bs : list block) : list block := flat_map (kept_of sel) bs.
 
-(* a block cut into the pieces the splice keeps or drops *)
-Definition pieces_of (sel : str -> bool) (b : block) : list (bool * str) :=
-  match b with
-  | BEntity cs key b1 sc b2 conts lastl nl =>
-      [(false, ctext cs); (sel key, key ++ b1 ++ sc :: b2 ++ vraw conts lastl); (false, eol nl)]
-  | _ => [(false, text b)]
-  end.
-Definition pieces (sel : str -> bool) (bs : list block) : list (bool * str) :=
-  flat_map (pieces_of sel) bs.
 
 Lemma file_text_app : forall l1 l2, file_text (l1 ++ l2) = file_text l1 ++ file_text l2.
 Proof. intros. unfold file_text. now rewrite map_app, concat_app. Qed.
 
-Lemma pieces_text : forall sel bs, concat (map snd (pieces sel bs)) = file_text bs.
+Lemma kept_ftext_blocks : forall sel bs, kept_ftext text p_dec sel bs = file_text (kept sel bs).
 Proof.
   intros sel bs. induction bs as [|b rest IH]; [reflexivity|].
-  unfold pieces in *. cbn [flat_map]. rewrite map_app, concat_app, IH, file_text_cons.
-  f_equal. destruct b; cbn [pieces_of map snd concat text]; rewrite ?app_nil_r; [reflexivity..|].
-  norm_app. reflexivity.
-Qed.
-
-Lemma pieces_kept : forall sel bs, concat (kept_blocks (pieces sel bs)) = file_text (kept sel bs).
-Proof.
-  intros sel bs. induction bs as [|b rest IH]; [reflexivity|].
-  unfold pieces, kept, kept_blocks in *. cbn [flat_map].
-  rewrite filter_app, map_app, concat_app, IH, file_text_app. f_equal.
-  destruct b as [x|cs|cs key b1 sc b2 conts lastl nl].
-  - cbn. now rewrite !app_nil_r.
-  - cbn. now rewrite !app_nil_r.
-  - cbn [pieces_of kept_of filter fst negb map snd concat].
-    destruct (sel key); cbn [negb filter map snd concat fst].
-    + rewrite file_text_app. destruct cs as [|c cs], nl; cbn; rewrite ?app_nil_r; reflexivity.
-    + unfold file_text. cbn [map concat text]. rewrite !app_nil_r. norm_app. reflexivity.
-Qed.
-
-Lemma block_spans_app : forall l1 l2 off,
-  block_spans off (l1 ++ l2) = block_spans off l1 ++ block_spans (off + length (concat (map snd l1))) l2.
-Proof.
-  induction l1 as [|[f t] l1 IH]; intros l2 off; simpl.
-  - now rewrite Nat.add_0_r.
-  - rewrite IH, <- app_assoc, app_length.
-    now replace (off + length t + length (concat (map snd l1)))
-      with (off + (length t + length (concat (map snd l1)))) by lia.
-Qed.
-
-Lemma pieces_spans : forall sel bs off,
-  block_spans off (pieces sel bs) = map snd (filter (fun p => sel (fst p)) (block_entities off bs)).
-Proof.
-  intros sel bs. induction bs as [|b rest IH]; intro off; [reflexivity|].
-  unfold pieces in *. cbn [flat_map block_entities].
-  rewrite block_spans_app, filter_app, map_app, IH. f_equal.
-  - destruct b as [x|cs|cs key b1 sc b2 conts lastl nl]; cbn [pieces_of block_spans block_entity]; try reflexivity.
-    cbn [app filter fst]. destruct (sel key); cbn [map snd app]; [|reflexivity].
-    f_equal. f_equal. rewrite !app_length. simpl. rewrite !app_length. lia.
-  - do 2 f_equal. f_equal.
-    replace (concat (map snd (pieces_of sel b))) with (text b); [reflexivity|].
-    destruct b; cbn [pieces_of map snd concat text]; rewrite ?app_nil_r; [reflexivity..|].
-    norm_app. reflexivity.
-Qed.
-
-Definition block_skips_p (sel : str -> bool) (bs : list block) : list skip :=
-  map skip_of (filter (fun p => sel (fst p)) (block_entities 0 bs)).
-
-(* removing the spans of the selected entities leaves the kept blocks *)
-Lemma remove_selected : forall sel bs,
-  remove_spans (file_text bs) (map sk_span (block_skips_p sel bs)) = file_text (kept sel bs).
-Proof.
-  intros sel bs. rewrite <- pieces_kept, <- (pieces_text sel bs).
-  rewrite <- remove_block_spans. f_equal.
-  unfold block_skips_p. rewrite map_map, pieces_spans, map_map. reflexivity.
-Qed.
-
-(* ---- the sort puts any permutation of the parse's skips into file order ------ *)
-Definition start_lt (p q : str * span) : Prop := fst (snd p) < fst (snd q).
-
-Lemma block_entities_lower : forall bs off p, In p (block_entities off bs) -> off <= fst (snd p).
-Proof.
-  induction bs as [|b rest IH]; intros off p H; [contradiction|].
-  cbn [block_entities] in H. apply in_app_or in H. destruct H as [H|H].
-  - destruct b; cbn [block_entity] in H; try contradiction.
-    destruct H as [<-|[]]. cbn. lia.
-  - specialize (IH _ _ H). lia.
-Qed.
-
-Lemma block_entities_sorted : forall bs, Forall legal_block bs -> forall off,
-  StronglySorted start_lt (block_entities off bs).
-Proof.
-  induction bs as [|b rest IH]; intros Hleg off; [constructor|].
-  inversion Hleg as [|b' rest' Hb Hrest]; subst. specialize (IH Hrest).
-  cbn [block_entities]. destruct b as [x|cs|cs key b1 sc b2 conts lastl nl];
-    cbn [block_entity app]; try apply IH.
-  constructor; [apply IH|]. rewrite Forall_forall. intros p Hp.
-  apply block_entities_lower in Hp. unfold start_lt. cbn [fst snd].
-  rewrite text_entity_length in Hp.
-  unfold legal_block in Hb. cbn [legal_blockb] in Hb.
-  repeat (apply andb_true_iff in Hb; destruct Hb as [Hb ?]).
-  assert (1 <= length key) by (destruct key; [discriminate|simpl; lia]). lia.
-Qed.
-
-Lemma StronglySorted_filter : forall {X} (R : X -> X -> Prop) f (l : list X),
-  StronglySorted R l -> StronglySorted R (filter f l).
-Proof.
-  intros X R f l H. induction H as [|x l Hs IH Hx]; simpl; [constructor|].
-  destruct (f x); [|exact IH]. constructor; [exact IH|].
-  rewrite Forall_forall in *. intros y Hy. apply filter_In in Hy. now apply Hx.
-Qed.
-
-Lemma StronglySorted_map : forall {X Y} (R : X -> X -> Prop) (Q : Y -> Y -> Prop) (g : X -> Y) l,
-  (forall a b, R a b -> Q (g a) (g b)) -> StronglySorted R l -> StronglySorted Q (map g l).
-Proof.
-  intros X Y R Q g l HRQ H. induction H as [|x l Hs IH Hx]; simpl; constructor; [exact IH|].
-  rewrite Forall_forall in *. intros y Hy. apply in_map_iff in Hy. destruct Hy as [z [<- Hz]]. auto.
-Qed.
-
-Definition skip_lt (x y : skip) : Prop :=
-  match sk_start x, sk_start y with Some a, Some b => a < b | _, _ => False end.
-
-Lemma block_skips_sorted : forall sel bs, Forall legal_block bs ->
-  StronglySorted skip_lt (block_skips_p sel bs).
-Proof.
-  intros sel bs Hleg. unfold block_skips_p.
-  apply (StronglySorted_map start_lt); [intros a b H; exact H|].
-  apply StronglySorted_filter. now apply block_entities_sorted.
-Qed.
-
-Lemma skip_lt_le : forall l : list skip, StronglySorted skip_lt l -> StronglySorted start_le l.
-Proof.
-  intros l H. induction H as [|x l Hs IH Hx]; constructor; [exact IH|].
-  eapply Forall_impl; [|exact Hx]. intros y Hy. unfold skip_lt in Hy. unfold start_le.
-  destruct (sk_start x), (sk_start y); try contradiction. lia.
-Qed.
-
-Lemma skip_lt_inj : forall l : list skip, StronglySorted skip_lt l ->
-  forall x y, In x l -> In y l -> sk_start x = sk_start y -> x = y.
-Proof.
-  intros l H. induction H as [|z l Hs IH Hz]; intros x y Hx Hy E; [contradiction|].
-  rewrite Forall_forall in Hz.
-  destruct Hx as [Hx|Hx], Hy as [Hy|Hy]; auto.
-  - congruence.
-  - subst z. specialize (Hz y Hy). unfold skip_lt in Hz. rewrite E in Hz.
-    destruct (sk_start y); [lia|contradiction].
-  - subst z. specialize (Hz x Hx). unfold skip_lt in Hz. rewrite E in Hz.
-    destruct (sk_start y); [lia|contradiction].
-Qed.
-
-Lemma sorted_perm_eq : forall l1 l2 : list skip,
-  StronglySorted start_le l1 -> StronglySorted start_le l2 -> Permutation l1 l2 ->
-  (forall x y, In x l2 -> In y l2 -> sk_start x = sk_start y -> x = y) -> l1 = l2.
-Proof.
-  induction l1 as [|x l1 IH]; intros l2 H1 H2 P Hinj.
-  - apply Permutation_nil in P. now subst.
-  - destruct l2 as [|y l2]; [apply Permutation_sym, Permutation_nil in P; discriminate|].
-    inversion H1 as [|? ? H1' Hx]; subst. inversion H2 as [|? ? H2' Hy]; subst.
-    rewrite Forall_forall in Hx, Hy.
-    assert (x = y) as ->.
-    { assert (In x (y :: l2)) as Ix by (apply (Permutation_in _ P); now left).
-      assert (In y (x :: l1)) as Iy by (apply (Permutation_in _ (Permutation_sym P)); now left).
-      destruct Ix as [<-|Ix]; [reflexivity|]. destruct Iy as [<-|Iy]; [reflexivity|].
-      apply Hinj; [now right|now left|].
-      specialize (Hx y Iy). specialize (Hy x Ix). unfold start_le in Hx, Hy.
-      destruct (sk_start x), (sk_start y); try contradiction. f_equal. lia. }
-    f_equal. apply IH; auto.
-    + now apply Permutation_cons_inv in P.
-    + intros a b Ha Hb. apply Hinj; now right.
-Qed.
-
-Lemma block_skips_started : forall sel bs, Forall has_start (block_skips_p sel bs).
-Proof.
-  intros sel bs. unfold block_skips_p. rewrite Forall_forall. intros s Hs.
-  apply in_map_iff in Hs. destruct Hs as [p [<- _]]. now exists (fst (snd p)).
-Qed.
-
-(* any permutation of the block skips is sorted into file order *)
-Lemma sort_block_skips : forall sel bs skips, Forall legal_block bs ->
-  Permutation skips (block_skips_p sel bs) -> sort_skips skips = Ok (block_skips_p sel bs).
-Proof.
-  intros sel bs skips Hleg P.
-  assert (Forall has_start skips) as HF.
-  { rewrite Forall_forall. intros s Hs. pose proof (block_skips_started sel bs) as F.
-    rewrite Forall_forall in F. apply F. apply (Permutation_in _ P Hs). }
-  destruct (sort_skips_ok skips HF) as (sorted & E & P' & S' & _). rewrite E. f_equal.
-  pose proof (block_skips_sorted sel bs Hleg) as Hs.
-  apply sorted_perm_eq; [exact S'|now apply skip_lt_le| |now apply skip_lt_inj].
-  rewrite <- P'. exact P.
+  unfold kept_ftext, kept in *. cbn [map concat flat_map]. rewrite file_text_app, IH. f_equal.
+  unfold kept_text. destruct b as [x|cs|cs key b1 sc b2 conts lastl nl]; cbn [p_dec kept_of];
+    try (unfold file_text; cbn; now rewrite app_nil_r).
+  destruct (sel key); [|unfold file_text; cbn [map concat]; now rewrite app_nil_r].
+  rewrite file_text_app. destruct cs as [|c cs], nl; cbn; rewrite ?app_nil_r; reflexivity.
 Qed.
 
 (* ---- the staged text as a block list ------------------------------------------ *)
@@ -554,62 +374,12 @@ Proof.
   now rewrite records_of_app, records_kept, records_closeb, records_with_nl.
 Qed.
 
-(* ---- lookups -------------------------------------------------------------------- *)
-Lemma map_result_app : forall {X Y} (f : X -> result Y) l1 l2 r,
-  map_result f (l1 ++ l2) = Ok r ->
-  exists r1 r2, map_result f l1 = Ok r1 /\ map_result f l2 = Ok r2 /\ r = r1 ++ r2.
-Proof.
-  intros X Y f. induction l1 as [|x l1 IH]; intros l2 r H.
-  - exists [], r. auto.
-  - cbn [app map_result] in H. destruct (f x) as [y|] eqn:E; [|discriminate]. cbn [bind] in H.
-    destruct (map_result f (l1 ++ l2)) as [r'|] eqn:E'; [|discriminate]. cbn [bind] in H.
-    inversion H; subst. destruct (IH l2 r' E') as (r1 & r2 & H1 & H2 & ->).
-    exists (y :: r1), r2. cbn [map_result]. rewrite E, H1. auto.
-Qed.
-
-Lemma map_result_map : forall {X Y Z} (g : X -> Y) (f : Y -> result Z) l,
-  map_result (fun x => f (g x)) l = map_result f (map g l).
-Proof.
-  intros X Y Z g f. induction l as [|x l IH]; [reflexivity|]. cbn [map map_result]. now rewrite IH.
-Qed.
-
-Lemma filter_map_comm : forall {X Y} (g : X -> Y) (p : Y -> bool) l,
-  map g (filter (fun x => p (g x)) l) = filter p (map g l).
-Proof.
-  intros X Y g p. induction l as [|x l IH]; [reflexivity|]. cbn [filter map].
-  destruct (p (g x)); cbn [map]; now rewrite IH.
-Qed.
-
-Lemma block_skips_keys : forall sel bs,
-  map sk_key (block_skips_p sel bs) = filter sel (map rkey (records_of bs)).
-Proof.
-  intros sel bs. unfold block_skips_p. rewrite map_map. cbn [skip_of sk_key].
-  rewrite <- block_entities_keys with (off := 0). apply (filter_map_comm fst sel).
-Qed.
-
-Lemma block_skips_non_junk : forall sel bs, non_junk (block_skips_p sel bs) = block_skips_p sel bs.
-Proof.
-  intros sel bs. unfold non_junk, block_skips_p.
-  induction (filter (fun p => sel (fst p)) (block_entities 0 bs)) as [|p l IH]; [reflexivity|].
-  cbn [map filter skip_of sk_junk negb]. now rewrite IH.
-Qed.
-
-Lemma filter_none_all : forall {X Y} (g : X -> Y) (p : Y -> bool) l,
-  filter p (map g l) = [] -> filter (fun x => negb (p (g x))) l = l.
-Proof.
-  intros X Y g p. induction l as [|x l IH]; intro H; [reflexivity|]. cbn [map filter] in *.
-  destruct (p (g x)); [discriminate|]. cbn [negb]. now rewrite IH.
-Qed.
-
-Lemma remove_spans_nil : forall c : str, remove_spans c [] = c.
-Proof. intro c. unfold remove_spans. cbn [copy_around]. unfold pyslice. now rewrite slice_full. Qed.
-
+(* ---- the theorem ------------------------------------------------------------------ *)
 Lemma caps_properties_facts :
   has caps_properties can_copy = false /\ has caps_properties can_skip = true /\
   has caps_properties can_merge = true.
 Proof. repeat split; reflexivity. Qed.
 
-(* ---- the theorem ------------------------------------------------------------------ *)
 Theorem reparse_properties :
   forall (bs abs : list block) (sel : str -> bool) (missing : list str)
          (refs : list (str * str)) (es : list entry) (skips : list skip),
@@ -632,51 +402,27 @@ Proof.
   intros bs abs sel missing refs es skips Hleg Hadj Hwalk Hperm Habs Hlk.
   rewrite (blocks_properties bs Hleg Hadj) in Hwalk. inversion Hwalk; subst es. clear Hwalk.
   unfold parse_skips in Hperm. rewrite (parse_entities_blocks bs Hleg) in Hperm.
-  fold (block_skips_p sel bs) in Hperm. set (S := block_skips_p sel bs) in *.
-  pose proof (sort_block_skips sel bs skips Hleg Hperm) as Hsort. fold S in Hsort.
-  destruct (map_result_app _ _ _ _ Hlk) as (ms & ss & Hms & Hss & Eall).
-  assert (map_result (fun s => ref_all str_eqb refs (sk_key s)) (non_junk S) = Ok ss) as Hss'.
-  { unfold S. rewrite block_skips_non_junk, (map_result_map sk_key), block_skips_keys. exact Hss. }
+  rewrite <- keys_of_records in Hlk.
   destruct caps_properties_facts as (Hc & Hs & Hm).
-  destruct (nonempty skips || nonempty missing) eqn:Hne.
-  - (* something is merged *)
-    pose proof (merge_append str_eqb caps_properties (file_text bs) skips missing refs S ms ss
-                  Hc Hs Hm Hne Hsort Hms Hss') as Hmerge. cbv zeta in Hmerge.
-    assert (remove_spans (file_text bs) (map sk_span S) = file_text (kept sel bs)) as Hrm
-      by apply remove_selected.
-    set (t0 := [10%N] ++ concat (map ensure_newline (ms ++ ss))) in *.
-    assert (file_text (merged_blocks sel bs abs) = file_text (kept sel bs) ++ t0) as Htext.
-    { rewrite (merged_blocks_text sel bs abs Habs). unfold t0. now rewrite Eall. }
+  destruct (merge_on_blocks text p_dec p_dec_text p_dec_core caps_properties [] bs sel missing refs
+              skips (map entity_all abs) Hc Hs Hm Hperm Hlk) as (a & Hmerge & Hcase).
+  change (ftext text bs) with (file_text bs) in *.
+  change ([] ++ file_text bs) with (file_text bs) in *.
+  destruct Hcase as [[Hne Hst]|(Hne & -> & Hnil & Hnone)]; rewrite Hne.
+  - assert (staged_text (file_text bs) a = Some (file_text (merged_blocks sel bs abs))) as Hst'.
+    { rewrite Hst. f_equal. rewrite (merged_blocks_text sel bs abs Habs), kept_ftext_blocks.
+      reflexivity. }
     destruct (C02_roundtrip_properties_multi (merged_blocks sel bs abs)
                 (merged_blocks_legal sel bs abs Hleg Habs)
                 (merged_blocks_adjacent sel bs abs Hadj Habs)) as (es' & Hw & Hrec & _ & Hjunk).
     rewrite merged_blocks_records in Hrec.
-    exists (if nonempty skips then Write (remove_spans (file_text bs) (map sk_span S) ++ t0)
-            else CopyL10nAppend t0),
-           (file_text (merged_blocks sel bs abs)), (merged_blocks sel bs abs), es'.
-    split; [exact Hmerge|]. split.
-    { rewrite Htext. destruct skips as [|s0 skips']; cbn [nonempty staged_text].
-      - apply Permutation_nil in Hperm. rewrite Hperm in Hrm. cbn [map] in Hrm.
-        rewrite remove_spans_nil in Hrm. now rewrite <- Hrm.
-      - now rewrite Hrm. }
-    split; [reflexivity|]. split; [reflexivity|].
-    split; [now apply merged_blocks_legal|]. split; [now apply merged_blocks_adjacent|].
-    split; [exact Hw|]. split; [exact Hrec|exact Hjunk].
-  - (* nothing to skip, nothing missing: the localization is staged as it is *)
-    apply orb_false_iff in Hne. destruct Hne as [Hn1 Hn2].
-    destruct skips; [|discriminate]. destruct missing; [|discriminate].
-    apply Permutation_nil in Hperm.
-    assert (filter sel (map rkey (records_of bs)) = []) as Hnone.
-    { rewrite <- block_skips_keys. fold S. now rewrite Hperm. }
-    cbn [app] in Hlk. rewrite Hnone in Hlk. cbn [map_result] in Hlk. inversion Hlk as [Habs0].
-    assert (abs = []) as -> by (destruct abs; [reflexivity|discriminate]).
+    exists a, (file_text (merged_blocks sel bs abs)), (merged_blocks sel bs abs), es'.
+    repeat split; auto using merged_blocks_legal, merged_blocks_adjacent.
+  - assert (abs = []) as -> by (destruct abs; [reflexivity|discriminate]).
     destruct (C02_roundtrip_properties_multi bs Hleg Hadj) as (es' & Hw & Hrec & _ & Hjunk).
-    exists CopyL10n, (file_text bs), bs, es'.
-    split; [apply merge_identity; right; exact Hs|]. split; [reflexivity|].
-    split; [reflexivity|]. split; [reflexivity|]. split; [exact Hleg|]. split; [exact Hadj|].
-    split; [exact Hw|]. split; [|exact Hjunk].
+    exists CopyL10n, (file_text bs), bs, es'. repeat split; auto.
     rewrite Hrec. cbn [records_of]. rewrite app_nil_r. symmetry.
-    exact (filter_none_all rkey sel (records_of bs) Hnone).
+    rewrite keys_of_records in Hnone. exact (filter_none_all rkey sel (records_of bs) Hnone).
 Qed.
 
 (* ---- why the premises are there ---------------------------------------------------- *)
